@@ -84,7 +84,24 @@ func closureOf(v ssa.Value) *ssa.Function {
 
 // singleStoreTo returns the value stored to addr if there is exactly one
 // store to it in the enclosing function tree (alloc or captured variable).
+var singleStoreCache = map[ssa.Value]struct {
+	v  ssa.Value
+	ok bool
+}{}
+
 func singleStoreTo(addr ssa.Value) ssa.Value {
+	if c, ok := singleStoreCache[addr]; ok {
+		return c.v
+	}
+	v := singleStoreTo0(addr)
+	singleStoreCache[addr] = struct {
+		v  ssa.Value
+		ok bool
+	}{v, true}
+	return v
+}
+
+func singleStoreTo0(addr ssa.Value) ssa.Value {
 	var cell ssa.Value = addr
 	// a FreeVar refers to the Alloc bound by the enclosing MakeClosure
 	for {
